@@ -931,7 +931,7 @@ func SelfCheck() error {
 	if fmt.Sprint(Inverse([]int{2, 0, 1})) != "[1 2 0]" || Inverse([]int{0, 0}) != nil {
 		return fmt.Errorf("Inverse")
 	}
-	return nil
+	return selfCheckFirst()
 }
 
 func init() {
